@@ -31,6 +31,8 @@
 #include "early_battery.h"
 
 #include <memory>
+#include <tuple>
+#include <utility>
 
 using vf::Ctx;
 using vf::strf;
@@ -548,6 +550,16 @@ static void check_unary(Ctx &c, const std::string &raw)
         val();
         if (!same(up, ur))
             c.fail(strf("to_upper:%s", mapcls(up, ur)), strf("input %s result %s", show(raw).c_str(), vf::hex_units(up.c_str(), up.size(), 40).c_str()));
+        // the same on temporaries / objects given up with std::move, and chained (an rvalue-qualified overload must map alike)
+        {
+            ST::string t1 = mkst(raw), t2 = mkst(raw);
+            ST::string lo_r = OP(ST::string(a).to_lower()), up_r = OP(ST::string(a).to_upper()), lo_m = OP(std::move(t1).to_lower()), up_m = OP(std::move(t2).to_upper());
+            ST::string lu = OP(a.to_lower().to_upper()), ul = OP(a.to_upper().to_lower());
+            val();
+            if (!same(lo_r, fr) || !same(lo_m, fr)) c.fail(strf("to_lower(on an rvalue):%s", mapcls(same(lo_r, fr) ? lo_m : lo_r, fr)), strf("input %s", show(raw).c_str()));
+            if (!same(up_r, ur) || !same(up_m, ur)) c.fail(strf("to_upper(on an rvalue):%s", mapcls(same(up_r, ur) ? up_m : up_r, ur)), strf("input %s", show(raw).c_str()));
+            if (!same(lu, ur) || !same(ul, fr)) c.fail("to_lower().to_upper() / to_upper().to_lower():chained-call-differs", strf("input %s", show(raw).c_str()));
+        }
         val();
         if (lo.c_str()[lo.size()] != 0 || up.c_str()[up.size()] != 0) c.fail("to_upper/to_lower:terminator", show(raw));
         val();
@@ -1180,6 +1192,47 @@ static void build(vf::Plan &plan, const vf::Opts &o)
                        if (ra != rb) c.nontrivial();
                    },
                    [](uint64_t i) { return strf("pair #%llu", (unsigned long long)i); });
+    }
+
+    // ---- comparisons the standard library derives from the string's own operators (std::pair, std::tuple, std::vector of strings; in
+    // C++20 these use operator<=> when the element type has one): every ordered pair over {a, NUL, b, 80}^<=3
+    {
+        static const unsigned char DA[4] = {'a', 0x00, 'b', 0x80};
+        plan.stage("derived comparisons: std::pair / std::tuple / std::vector of ST::string and of char_buffer, all ordered pairs over {a,NUL,b,80}^<=3", 85 * 85,
+                   [](uint64_t i, Ctx &c) {
+                       auto mkv = [](uint64_t k) {
+                           std::string v;
+                           unsigned len = 0;
+                           uint64_t base = 0;
+                           for (len = 0; len <= 3; ++len) {
+                               uint64_t n = vf::ipow(4, len);
+                               if (k < base + n) break;
+                               base += n;
+                           }
+                           k -= base;
+                           for (unsigned j = 0; j < len; ++j, k /= 4) v += (char)DA[k % 4];
+                           return v;
+                       };
+                       std::string ra = mkv(i / 85), rb = mkv(i % 85);
+                       ST::string a = ST::string::from_validated(ra.data(), ra.size()), b = ST::string::from_validated(rb.data(), rb.size());
+                       ST::char_buffer ba(ra.data(), ra.size()), bb(rb.data(), rb.size());
+                       int cs2 = sgn(ref::cmp_str<char>(ra, rb));  // unsigned bytes, proper prefix first
+                       std::pair<ST::string, int> pa(a, 1), pb(b, 0);
+                       std::vector<ST::string> va = {a, b}, vb = {b, a};
+                       std::tuple<int, ST::string> ta(7, a), tb(7, b);
+                       std::pair<ST::char_buffer, int> qa(ba, 1), qb(bb, 0);
+                       val();
+                       if ((pa < pb) != (cs2 < 0) || (pa == pb) != false || (pb < pa) != (cs2 >= 0) || (pa <= pb) != (cs2 < 0))
+                           c.fail("std::pair<ST::string,int>:comparison-disagrees-with-compare", strf("a=%s b=%s", show(ra).c_str(), show(rb).c_str()));
+                       if ((va < vb) != (cs2 < 0) || (va == vb) != (cs2 == 0) || (va > vb) != (cs2 > 0))
+                           c.fail("std::vector<ST::string>:comparison-disagrees-with-compare", strf("a=%s b=%s", show(ra).c_str(), show(rb).c_str()));
+                       if ((ta < tb) != (cs2 < 0) || (ta == tb) != (cs2 == 0) || (ta >= tb) != (cs2 >= 0))
+                           c.fail("std::tuple<int,ST::string>:comparison-disagrees-with-compare", strf("a=%s b=%s", show(ra).c_str(), show(rb).c_str()));
+                       if ((qa < qb) != (cs2 < 0) || (qb < qa) != (cs2 >= 0))
+                           c.fail("std::pair<ST::char_buffer,int>:comparison-disagrees-with-compare", strf("a=%s b=%s", show(ra).c_str(), show(rb).c_str()));
+                       if (ra != rb) c.nontrivial();
+                   },
+                   [](uint64_t i) { return strf("derived comparison pair #%llu", (unsigned long long)i); });
     }
 
     // ---- one object, successive values in the same storage
